@@ -54,7 +54,7 @@ def _make_objects():
 
 SUFFIX = {
     "aln": ".fasta", "arrayaln": ".fasta", "seqcoll": ".fasta", "newcoll": ".fasta", "tree": ".nwk", "table": ".tsv",
-    "dictarray": ".tsv", "treecoll": ".trees", "atomic": ".txt", "atomic_tmpdir": ".txt",
+    "dictarray": ".tsv", "treecoll": ".trees", "atomic": ".txt", "atomic_tmpdir": ".txt", "atomic_bare": ".txt",
 }
 
 CALLER_TMP = "mytmp"  # a directory supplied by the caller (atomic_write(..., tmpdir=)) holding an unrelated file
@@ -87,6 +87,15 @@ def run_writer(writer, target, path, tag, natural_fail=False):
         with atomic_write(path, tmpdir=os.path.join(os.path.dirname(path), CALLER_TMP), mode="wt") as f:
             for ch in ATOMIC_CHUNKS[tag]:
                 f.write(ch)
+        return
+    if writer == "atomic_bare":
+        # the bare-object protocol (what open_zip(…, "w") hands to its caller): no with-block, no __enter__
+        from cogent3.util.io import atomic_write
+
+        aw = atomic_write(path, mode="wt")
+        for ch in ATOMIC_CHUNKS[tag]:
+            aw.write(ch)
+        aw.close()
         return
     if writer == "atomic":
         from cogent3.util.io import atomic_write
@@ -390,6 +399,29 @@ def instrumented(job, out_fd):
 
     zipfile.ZipFile.close = zclose
     res = {"exc": None}
+    # which call sites of atomic_write inside cogent3 does this run go through, and how is the object used?
+    sites = []
+    src_root = os.path.dirname(os.path.dirname(os.path.abspath(cio.__file__)))  # …/src/cogent3
+    orig_init, orig_enter = cio.atomic_write.__init__, cio.atomic_write.__enter__
+
+    def init_rec(self, path, tmpdir=None, in_zip=None, *a, **kw):
+        fr = sys._getframe(1)
+        fn = os.path.abspath(fr.f_code.co_filename)
+        if fn.startswith(src_root + os.sep):
+            self._c19_site = {"file": os.path.relpath(fn, src_root), "func": getattr(fr.f_code, "co_qualname", fr.f_code.co_name),
+                              "tmpdir_arg": tmpdir is not None, "in_zip_arg": bool(in_zip), "entered": False}
+            sites.append(self._c19_site)
+        return orig_init(self, path, tmpdir, in_zip, *a, **kw)
+
+    def enter_rec(self):
+        st = self.__dict__.get("_c19_site")
+        if st is not None:
+            st["entered"] = True
+        return orig_enter(self)
+
+    if job["mode"] == "trace":
+        cio.atomic_write.__init__ = init_rec
+        cio.atomic_write.__enter__ = enter_rec
     tr.active = True
     try:
         run_writer(job["writer"], job["target"], os.path.join(job["workdir"], job["dest"]), "new", job["mode"] == "natural")
@@ -400,6 +432,7 @@ def instrumented(job, out_fd):
     res["trace"] = tr.trace
     res["chunks"] = tr.chunks
     res["injected"] = tr.injected
+    res["sites"] = sites
     os.write(out_fd, json.dumps(res).encode())
     os._exit(0)
 
